@@ -24,6 +24,8 @@ pub struct Plan {
     pub record: bool,
     /// only the first `limit` instances of the family (None = all)
     pub limit: Option<u64>,
+    /// run the PARALLEL solver with one worker (deterministic) instead of the sequential solver
+    pub par1: bool,
 }
 
 #[derive(Default)]
@@ -49,6 +51,7 @@ pub struct Agg {
     pub gap_checked: u64,
     /// max over terminating runs of polls * 1000 / fuel (how far legitimate runs stay below the fuel bound)
     pub max_fuel_permille: u64,
+    pub hangs: u64,
     pub outcomes: BTreeMap<String, u64>,
     pub samples: Vec<Value>,
     pub monitor_hits: BTreeMap<String, u64>,
@@ -59,7 +62,7 @@ impl Agg {
         self.primal_runs += o.primal_runs; self.primal_below_opt += o.primal_below_opt; self.infeasible_instances += o.infeasible_instances;
         self.merges += o.merges; self.restricted += o.restricted; self.relaxed += o.relaxed; self.cache_hits += o.cache_hits; self.dom_pruned += o.dom_pruned;
         self.relax_calls += o.relax_calls; self.layers_checked += o.layers_checked; self.long_arc_instances += o.long_arc_instances; self.twin_pairs += o.twin_pairs;
-        self.cache_twin_diff_explored += o.cache_twin_diff_explored; self.gap_checked += o.gap_checked; self.max_fuel_permille = self.max_fuel_permille.max(o.max_fuel_permille);
+        self.cache_twin_diff_explored += o.cache_twin_diff_explored; self.gap_checked += o.gap_checked; self.max_fuel_permille = self.max_fuel_permille.max(o.max_fuel_permille); self.hangs += o.hangs;
         for (k, v) in o.outcomes { *self.outcomes.entry(k).or_insert(0) += v; }
         for (k, v) in o.monitor_hits { *self.monitor_hits.entry(k).or_insert(0) += v; }
         for s in o.samples { if self.samples.len() < 6 { self.samples.push(s); } }
@@ -74,12 +77,20 @@ fn model_class(m: &dyn Model) -> String {
 }
 
 /// monitors of an uninterrupted run
-pub fn judge_plain(m: &dyn Model, cfg: &Cfg, out: &Out, primal: Option<isize>) -> Vec<Finding> {
+pub fn judge_plain(m: &dyn Model, cfg: &Cfg, out: &Out, primal: Option<isize>) -> Vec<Finding> { judge_plain_k(m, cfg, out, primal, false) }
+/// `par`: the run was made by the parallel solver (one worker): the primary property is C03 instead of C01
+pub fn judge_plain_k(m: &dyn Model, cfg: &Cfg, out: &Out, primal: Option<isize>, par: bool) -> Vec<Finding> {
     let mut f = vec![];
     let opt = m.opt();
     let target = match (opt, primal) { (Some(o), Some(p)) => Some(o.max(p)), (None, Some(p)) => Some(p), (o, None) => o };
-    let p1 = if primal.is_some() { "C14" } else { "C01" };
-    let mc = model_class(m);
+    let p1 = if primal.is_some() { "C14" } else if par { "C03" } else { "C01" };
+    let mc = if par { format!("par1:{}", model_class(m)) } else { model_class(m) };
+    if out.hang {
+        f.push(Finding { prop: "C04", sig: format!("par1:hang:{:?}:{}", cfg.dd, if cfg.cache { "cache" } else { "nocache" }).to_lowercase(), what: "parallel maximize() with one worker did not return within 10 s (worker parked for ever)".to_string() });
+        if primal.is_none() { f.push(Finding { prop: "C03", sig: format!("par1:hang:{:?}:{}", cfg.dd, if cfg.cache { "cache" } else { "nocache" }).to_lowercase(), what: "parallel maximize() with one worker did not return within 10 s".to_string() }); }
+        if cfg.cache && primal.is_none() { f.push(Finding { prop: "C09", sig: format!("par1:hang:{:?}:cache", cfg.dd).to_lowercase(), what: "parallel caching solver with one worker did not return within 10 s".to_string() }); }
+        return f;
+    }
     if let Some(p) = &out.panicked {
         let site = if p.contains("sequential.rs") { "sequential.rs" } else if p.contains("no_duplicate.rs") { "no_duplicate.rs" } else if p.contains("clean.rs") { "clean.rs" } else if p.contains("pooled.rs") { "pooled.rs" } else { "other" };
         f.push(Finding { prop: p1, sig: format!("seq:panic:{}:{}:{}", site, if cfg.nodup { "nodup" } else { "simple" }, mc), what: format!("maximize() panicked: {}", p) });
@@ -139,6 +150,7 @@ pub fn fmt_sol(sol: &[Decision]) -> Vec<(usize, isize)> { sol.iter().map(|d| (d.
 /// monitors of a run cut off at poll k (C05)
 pub fn judge_cut(m: &dyn Model, cfg: &Cfg, out: &Out) -> Vec<Finding> {
     let mut f = vec![];
+    if out.hang { f.push(Finding { prop: "C04", sig: format!("par1:cut:hang:{:?}", cfg.dd).to_lowercase(), what: "parallel maximize() with one worker and a cut-off did not return within 10 s".to_string() }); return f; }
     let opt = m.opt();
     if let Some(p) = &out.panicked { f.push(Finding { prop: "C05", sig: format!("seq:cut:panic:{}", cfg.short()), what: format!("panicked: {}", p) }); return f; }
     let o = opt.unwrap_or(isize::MIN);
@@ -170,8 +182,15 @@ fn add_stats(agg: &mut Agg, out: &Out) {
 pub fn run_instance(rep: &Reporter, focus: &[&str], plan: &Plan, idx: u64, agg: &mut Agg) {
     let vars: Vec<Variant> = if plan.rotate { vec![plan.variants[(idx % plan.variants.len() as u64) as usize]] } else { plan.variants.clone() };
     for var in vars {
-        let m = plan.fam.build(idx, var);
-        let m: &dyn Model = m.as_ref();
+        let marc: std::sync::Arc<dyn Model> = std::sync::Arc::from(plan.fam.build(idx, var));
+        let m: &dyn Model = marc.as_ref();
+        if plan.par1 && agg.hangs >= 20 { return; }
+        let par1 = plan.par1;
+        let hangs = std::cell::Cell::new(0u64);
+        let solve = |spec: &RunSpec| -> Out {
+            if !par1 { return run_seq(m, spec); }
+            match run_par(marc.clone(), spec, 1) { Some(o) => o, None => { hangs.set(hangs.get() + 1); let mut o = Out::default(); o.hang = true; o } }
+        };
         agg.instances += 1;
         if m.opt().is_none() { agg.infeasible_instances += 1; }
         if m.has_long_arcs() { agg.long_arc_instances += 1; }
@@ -180,7 +199,7 @@ pub fn run_instance(rep: &Reporter, focus: &[&str], plan: &Plan, idx: u64, agg: 
         for cfg in plan.cfgs.iter() {
             let mut spec = RunSpec::plain(*cfg);
             spec.record = plan.record;
-            let out = run_seq(m, &spec);
+            let out = solve(&spec);
             agg.runs += 1;
             if out.explored >= 2 { agg.nontrivial += 1; }
             if !out.fuel_out { agg.max_fuel_permille = agg.max_fuel_permille.max((out.polls * 1000 / fuel_for(m).max(1)) as u64); }
@@ -188,8 +207,8 @@ pub fn run_instance(rep: &Reporter, focus: &[&str], plan: &Plan, idx: u64, agg: 
             *agg.outcomes.entry(format!("exact={} value={}", out.is_exact, match out.best_value { None => "none", Some(_) => "some" })).or_insert(0) += 1;
             if out.gap == 0.0 || out.gap.is_nan() { agg.gap_checked += 1; }
             if agg.samples.len() < 2 && out.explored >= 3 { agg.samples.push(json!({"instance": m.describe(), "cfg": cfg.json(), "outcome": out.json()})); }
-            let fs = judge_plain(m, cfg, &out, None);
-            record(agg, rep, focus, fs, || json!({"engine": "bnb", "mode": "plain", "instance": id, "cfg": cfg.json(), "model": m.describe(), "outcome": out.json()}));
+            let fs = judge_plain_k(m, cfg, &out, None, par1);
+            record(agg, rep, focus, fs, || json!({"engine": "bnb", "solver": if par1 { "parallel(1 worker)" } else { "sequential" }, "mode": "plain", "instance": id, "cfg": cfg.json(), "model": m.describe(), "outcome": out.json()}));
             match plan.mode {
                 Mode::Plain => (),
                 Mode::Cutoffs => {
@@ -197,7 +216,7 @@ pub fn run_instance(rep: &Reporter, focus: &[&str], plan: &Plan, idx: u64, agg: 
                         let kmax = out.polls;
                         let mut prev: Option<(usize, isize, isize)> = None;
                         for k in 1..=kmax + 1 {
-                            let o = if k == kmax + 1 { out.clone() } else { let mut s = RunSpec::plain(*cfg); s.fire_at = k; run_seq(m, &s) };
+                            let o = if k == kmax + 1 { out.clone() } else { let mut s = RunSpec::plain(*cfg); s.fire_at = k; solve(&s) };
                             if k <= kmax {
                                 agg.cut_runs += 1;
                                 if o.explored >= 1 && !o.is_exact { agg.cut_nontrivial += 1; }
@@ -234,10 +253,10 @@ pub fn run_instance(rep: &Reporter, focus: &[&str], plan: &Plan, idx: u64, agg: 
                         s.primal = Some((*p, wit.clone()));
                         // exercise the replace-only-when-strictly-greater rule with a second call
                         if pi > 0 { s.primal2 = Some((ach[pi - 1].0, ach[pi - 1].1.clone())); }
-                        let o = run_seq(m, &s);
+                        let o = solve(&s);
                         agg.primal_runs += 1;
                         if Some(*p) < m.opt() { agg.primal_below_opt += 1; }
-                        let fs = judge_plain(m, cfg, &o, Some(*p));
+                        let fs = judge_plain_k(m, cfg, &o, Some(*p), par1);
                         record(agg, rep, focus, fs, || json!({"engine": "bnb", "mode": "primal", "primal": p, "witness": fmt_sol(wit), "instance": id, "cfg": cfg.json(), "model": m.describe(), "outcome": o.json()}));
                         // when the primal is optimal and the value equals it, the solution must be feasible for it (witness or own)
                         if let (Some(v), Some(sol)) = (o.best_value, &o.best_solution) {
@@ -254,7 +273,7 @@ pub fn run_instance(rep: &Reporter, focus: &[&str], plan: &Plan, idx: u64, agg: 
                         let other: Vec<Decision> = ach.first().unwrap().1.clone();
                         s.primal = Some((*p, wit.clone()));
                         s.primal2 = Some((*p, other.clone()));
-                        let o = run_seq(m, &s);
+                        let o = solve(&s);
                         agg.primal_runs += 1;
                         if o.polls >= 1 && o.panicked.is_none() && wit != &other {
                             let mut got = o.best_solution.clone().unwrap_or_default();
@@ -271,6 +290,7 @@ pub fn run_instance(rep: &Reporter, focus: &[&str], plan: &Plan, idx: u64, agg: 
             }
             by_cfg.push((*cfg, out));
         }
+        agg.hangs += hangs.get();
         // C09: caching vs non caching twins
         for (c, o) in by_cfg.iter().filter(|(c, _)| c.cache) {
             if let Some((_, t)) = by_cfg.iter().find(|(c2, _)| !c2.cache && c2.dd == c.dd && c2.nodup == c.nodup && c2.width == c.width) {
